@@ -137,6 +137,19 @@ type vaMockFR struct {
 func (m *vaMockFR) Open(string) (io.ReadCloser, error) { return m.r, nil }
 func (m *vaMockFR) GetExtension(string) string         { return m.ext }
 
+func vaTmpList() []string {
+	root := os.TempDir()
+	names := []string{}
+	filepath.WalkDir(root, func(p string, d os.DirEntry, err error) error {
+		if err == nil && p != root {
+			rel, _ := filepath.Rel(root, p)
+			names = append(names, rel)
+		}
+		return nil
+	})
+	return names
+}
+
 func vaB64(b []byte) string { return base64.StdEncoding.EncodeToString(b) }
 
 func vaRun(c *vaCmd) (res map[string]any) {
@@ -286,6 +299,14 @@ func vaRun(c *vaCmd) (res map[string]any) {
 			}
 		}
 		res["contents"] = contents
+		res["tmp_after_return"] = vaTmpList()
+		if c.N == 1 {
+			// the caller's duty on success: delete what was returned
+			if derr := cl.DeleteClusterLogs(context.Background(), files); derr != nil {
+				res["delete_err"] = derr.Error()
+			}
+			res["tmp_after_delete"] = vaTmpList()
+		}
 	case "atlas_delete":
 		cl := NewAtlasClient(&http.Client{})
 		if err := cl.DeleteClusterLogs(context.Background(), c.Files); err != nil {
